@@ -502,6 +502,51 @@ func (g *Gen) run(n int) {
 			for i := 0; i < k; i++ {
 				g.isolationStep(offs, recv)
 			}
+		case "rofs":
+			// build content on a writable directory store, then serve it read-only or through a memory overlay
+			k := 6 + g.r.Intn(15)
+			for i := 0; i < k; i++ {
+				if g.r.Intn(3) == 0 {
+					g.refsStep()
+				} else {
+					g.step()
+				}
+			}
+			mode := g.pick([]string{"ro=1", "store=memdir", "store=memdir", "ro=1 del=0", "store=memdir push=1 del=1"})
+			g.emit("RESTART " + mode)
+			g.sessions = nil
+			offs, recv := map[int]int{}, map[int]string{}
+			k = 8 + g.r.Intn(25)
+			for i := 0; i < k; i++ {
+				switch g.r.Intn(12) {
+				case 0:
+					// the read-only directory store never collects (no ticker, no collection on prune)
+					if strings.HasPrefix(mode, "store=memdir") {
+						g.emit("GC " + g.repo())
+					}
+				case 1:
+					g.emit("RESTART")
+					g.sessions = nil
+				case 2, 3:
+					g.uploadStep(offs, recv)
+				case 4:
+					g.refsStep()
+				default:
+					g.step()
+				}
+			}
+		case "restart":
+			k := 8 + g.r.Intn(30)
+			for i := 0; i < k; i++ {
+				if g.r.Intn(9) == 0 {
+					g.emit("RESTART")
+					g.sessions = nil
+				} else if g.r.Intn(3) == 0 {
+					g.refsStep()
+				} else {
+					g.step()
+				}
+			}
 		default:
 			k := 6 + g.r.Intn(28)
 			for i := 0; i < k; i++ {
